@@ -874,7 +874,12 @@ class C18Queue(Monitor):
         self.joined: Dict[str, Tuple[str, str, int]] = {}
 
     def after_step(self, h: History, before, after, events):
-        instructed = {e["vehicle_id"] for e in _events(events, "INSTRUCTION")}
+        # vehicles a scripted controller of the harness addressed in this step: such a vehicle may be taken out of the queue and
+        # plugged in by that controller's own choice. Instructions of the built-in generators and drivers are not an excuse:
+        # whatever they do, the queue is served in order of arrival.
+        instructed = {i.vehicle_id for g in h.scripted for i in getattr(g, "emitted", ())}
+        if any(e["vehicle_id"] not in instructed for e in _events(events, "INSTRUCTION")):
+            h.flag("built_in_instruction_in_a_step")
         # bring the log up to the state *before* this step (first step of a case, or vehicles that joined in the last step)
         for v in before.vehicles.values():
             if sname(v) == "ChargeQueueing":
@@ -981,6 +986,13 @@ class C09Atomic(Monitor):
             got = sname(va)
             if got not in (EXPECTED_CLASS.get(itype) or RAW_EXPECTED[instruction.kind]):
                 yield Violation("C09", f"accepted {itype} left the vehicle in {got}", {"instruction": repr(instruction), "previous": prev})
+            if got == "DispatchTrip":
+                # "with all of its side effects": the request now records this vehicle (whoever it recorded before)
+                r = after.requests.get(va.vehicle_state.request_id)
+                if r is not None:
+                    h.flag("accepted_dispatch_to_request_that_recorded_another_vehicle" if (before.requests.get(r.id) is not None and before.requests[r.id].dispatched_vehicle not in (None, vid)) else "accepted_dispatch")
+                    if r.dispatched_vehicle != vid:
+                        yield Violation("C09", f"accepted {itype}: the request does not record the vehicle that was sent to it", {"instruction": repr(instruction), "request": r.id, "recorded": r.dispatched_vehicle})
             others = [x for x in after.vehicles.values() if x.id != vid and x != before.vehicles[x.id]]
             if others:
                 yield Violation("C09", f"{itype} for one vehicle changed another vehicle", {"instruction": repr(instruction), "others": [x.id for x in others]})
